@@ -294,6 +294,11 @@ fn watchdog(f: impl FnOnce() -> String + Send + 'static) -> Ran {
 
 fn verdict(fmt: &str, ran: Ran, detail: &dyn Fn() -> String) -> Obs {
     match ran {
+        Ran::Done(s) if s.starts_with("runaway:") => Obs::fail(
+            "-",
+            &format!("hang-{fmt}-{}", &s[8..]),
+            format!("a lazy iterator of a record that was returned Ok never ends (more than 16 x input length items) | {}", detail()),
+        ),
         Ran::Done(s) => Obs::ok("-", s.starts_with("err") || !s.ends_with(":0")),
         Ran::Panic { file, line, msg } => {
             let tag = site_tag(fmt, &file, line, &msg);
@@ -322,6 +327,12 @@ fn base(fmt: &str) -> Arc<Vec<u8>> {
         "bam" => files::bam_raw(),
         "bcf" => files::bcf_raw(),
         "vcfgz" | "vcf" => files::vcf_text(),
+        "vcf42" | "vcf44" | "vcf45" | "vcf41" => {
+            let v = format!("VCFv4.{}", &fmt[4..]);
+            String::from_utf8(files::vcf_text()).unwrap().replace("VCFv4.3", &v).into_bytes()
+        }
+        "samcrlf" => String::from_utf8(files::sam_text()).unwrap().replace('\n', "\r\n").into_bytes(),
+        "bedcrlf" => String::from_utf8(files::bed_text()).unwrap().replace('\n', "\r\n").into_bytes(),
         "cram" => files::cram_file(),
         "sam" => files::sam_text(),
         "fasta" => files::fasta_text(),
@@ -348,6 +359,22 @@ fn base(fmt: &str) -> Arc<Vec<u8>> {
 
 fn is_text(fmt: &str) -> bool {
     matches!(fmt, "vcfgz" | "vcf" | "sam" | "fasta" | "fastq" | "gff" | "gtf" | "bed" | "fai" | "crai")
+        || structured_only(fmt)
+}
+
+/// text variants that only get the structured (column / boundary / token) mutations
+fn structured_only(fmt: &str) -> bool {
+    matches!(fmt, "vcf41" | "vcf42" | "vcf44" | "vcf45" | "samcrlf" | "bedcrlf")
+}
+
+/// the reader set used for a format name
+fn decoder_of(fmt: &str) -> &str {
+    match fmt {
+        "vcf41" | "vcf42" | "vcf44" | "vcf45" => "vcf",
+        "samcrlf" => "sam",
+        "bedcrlf" => "bed",
+        f => f,
+    }
 }
 
 fn seal(fmt: &str, mut payload: Vec<u8>) -> Vec<u8> {
@@ -457,7 +484,216 @@ fn mutate(p: &[u8], op: &str, a: u64, b: u64) -> Option<Vec<u8>> {
             let r = HOSTILE_TOKENS.get(b as usize)?;
             v.splice(s..e, r.bytes());
         }
+        "col" => {
+            // replace a whole column (the bytes between two TAB / LF separators), keeping the separators
+            let c = columns(p);
+            let &(s0, e0) = c.get(a_us)?;
+            let r = COLUMN_VALUES.get(b as usize)?;
+            v.splice(s0..e0, r.bytes());
+        }
+        "bnd" => {
+            // edit around the a-th separator (TAB or LF)
+            let seps: Vec<usize> = p.iter().enumerate().filter(|(_, x)| matches!(**x, b'\t' | b'\n')).map(|(i, _)| i).collect();
+            let &i = seps.get(a_us)?;
+            let next_end = p[i + 1..].iter().position(|x| matches!(*x, b'\t' | b'\n')).map_or(p.len(), |k| i + 1 + k);
+            let prev_start = p[..i].iter().rposition(|x| matches!(*x, b'\t' | b'\n')).map_or(0, |k| k + 1);
+            match b {
+                0 => drop(v.splice(i..i, *b"\r")),
+                1 => drop(v.splice(i..i, *b"\t")),
+                2 => drop(v.splice(i..i, *b"\r\t")),
+                3 => drop(v.splice(i..i + 1, [])),
+                4 => drop(v.splice(i + 1..next_end, [])),
+                5 => {
+                    // CR before the separator and an empty following column
+                    v.splice(i + 1..next_end, []);
+                    v.splice(i..i, *b"\r");
+                }
+                6 => drop(v.splice(prev_start..i, [])),
+                7 => drop(v.splice(i + 1..i + 1, *b"\t")),
+                8 => drop(v.splice(i..i, *b" ")),
+                9 => drop(v.splice(i + 1..i + 1, *b"\r")),
+                10 => drop(v.splice(i + 1..i + 1, *b"\tX")),
+                11 => drop(v.splice(i..i, *b"\tX")),
+                _ => return None,
+            }
+        }
+        "bamrec" | "bcfrec" => {
+            let recs = if op == "bamrec" { bam_records(p) } else { bcf_records(p) };
+            let (r, sub) = (a_us / 16, a_us % 16);
+            let &(start, len) = recs.get(r)?; // start of the length prefix, length of the whole unit
+            v = if op == "bamrec" { bam_record_edit(p, start, len, sub, b)? } else { bcf_record_edit(p, start, len, sub, b)? };
+        }
         "id" => {}
+        _ => return None,
+    }
+    Some(v)
+}
+
+const COLUMN_VALUES: &[&str] = &["", "\r", ".", "*", "0", "-1", " ", "=", ",", ";", ":", "\u{0}", "2147483648", "x", "\r.", ".\r"];
+const N_BND: u64 = 12;
+
+/// column spans: maximal runs between TAB / LF separators (possibly empty)
+fn columns(p: &[u8]) -> Vec<(usize, usize)> {
+    let mut v = Vec::new();
+    let mut s = 0;
+    for (i, b) in p.iter().enumerate() {
+        if matches!(*b, b'\t' | b'\n') {
+            v.push((s, i));
+            s = i + 1;
+        }
+    }
+    if s < p.len() {
+        v.push((s, p.len()));
+    }
+    v
+}
+
+fn le32(p: &[u8], o: usize) -> Option<usize> {
+    Some(u32::from_le_bytes(p.get(o..o + 4)?.try_into().ok()?) as usize)
+}
+
+/// (offset of block_size, 4 + block_size) of every record of an uncompressed BAM stream
+fn bam_records(p: &[u8]) -> Vec<(usize, usize)> {
+    let mut v = Vec::new();
+    let Some(l_text) = le32(p, 4) else { return v };
+    let mut o = 8 + l_text;
+    let Some(n_ref) = le32(p, o) else { return v };
+    o += 4;
+    for _ in 0..n_ref {
+        let Some(l_name) = le32(p, o) else { return v };
+        o += 4 + l_name + 4;
+    }
+    while let Some(bs) = le32(p, o) {
+        if o + 4 + bs > p.len() {
+            break;
+        }
+        v.push((o, 4 + bs));
+        o += 4 + bs;
+    }
+    v
+}
+
+/// (offset of l_shared, 8 + l_shared + l_indiv) of every record of an uncompressed BCF stream
+fn bcf_records(p: &[u8]) -> Vec<(usize, usize)> {
+    let mut v = Vec::new();
+    let Some(l_text) = le32(p, 5) else { return v };
+    let mut o = 9 + l_text;
+    while let (Some(ls), Some(li)) = (le32(p, o), le32(p, o + 4)) {
+        if o + 8 + ls + li > p.len() {
+            break;
+        }
+        v.push((o, 8 + ls + li));
+        o += 8 + ls + li;
+    }
+    v
+}
+
+fn delta(code: u64) -> i64 {
+    [1i64, -1, 2, -2, 3, -3, 4, -4][code as usize % 8]
+}
+
+fn add_le(v: &mut [u8], o: usize, w: usize, d: i64) {
+    let mut x = 0u64;
+    for i in 0..w {
+        x |= (v[o + i] as u64) << (8 * i);
+    }
+    let y = (x as i64).wrapping_add(d) as u64;
+    for i in 0..w {
+        v[o + i] = (y >> (8 * i)) as u8;
+    }
+}
+
+/// framing-consistent edits of one BAM record.
+/// sub 0: block_size += d and d tail bytes added (zeros) / removed, so the next record still frames;
+/// sub 1: l_read_name += d; 2: n_cigar_op += d; 3: l_seq += d; (block_size untouched)
+/// sub 4: l_seq += d and block grown/shrunk by the matching number of seq+qual bytes at the tail;
+/// sub 5: remove d bytes just before the quality scores' end, block_size adjusted (tail = aux)
+fn bam_record_edit(p: &[u8], start: usize, len: usize, sub: usize, code: u64) -> Option<Vec<u8>> {
+    let mut v = p.to_vec();
+    let d = delta(code);
+    let end = start + len;
+    let resize_tail = |v: &mut Vec<u8>, d: i64| -> Option<()> {
+        if d >= 0 {
+            v.splice(end..end, std::iter::repeat(0u8).take(d as usize));
+        } else {
+            let k = (-d) as usize;
+            if k + 36 > len {
+                return None;
+            }
+            v.splice(end - k..end, []);
+        }
+        add_le(v, start, 4, d);
+        Some(())
+    };
+    match sub {
+        0 => resize_tail(&mut v, d)?,
+        1 => add_le(&mut v, start + 4 + 8, 1, d),
+        2 => add_le(&mut v, start + 4 + 12, 2, d),
+        3 => add_le(&mut v, start + 4 + 16, 4, d),
+        4 => {
+            let l_seq = le32(p, start + 4 + 16)? as i64;
+            let n = l_seq + d;
+            if n < 0 {
+                return None;
+            }
+            let bytes = |l: i64| (l + 1) / 2 + l;
+            add_le(&mut v, start + 4 + 16, 4, d);
+            resize_tail(&mut v, bytes(n) - bytes(l_seq))?;
+        }
+        5 => {
+            // shrink / grow in the middle of the variable part: every later field shifts
+            let mid = start + 36 + (len - 36) / 2;
+            if d >= 0 {
+                v.splice(mid..mid, std::iter::repeat(0x41u8).take(d as usize));
+            } else {
+                v.splice(mid - (-d) as usize..mid, []);
+            }
+            add_le(&mut v, start, 4, d);
+        }
+        _ => return None,
+    }
+    Some(v)
+}
+
+/// framing-consistent edits of one BCF record.
+/// sub 0: l_shared += d with bytes added/removed at the end of the shared part; 1: same for l_indiv;
+/// sub 2: n_allele += d; 3: n_info += d; 4: n_fmt += d; 5: n_sample += d; 6: rlen += d; 7: l_shared += d, l_indiv -= d
+fn bcf_record_edit(p: &[u8], start: usize, len: usize, sub: usize, code: u64) -> Option<Vec<u8>> {
+    let mut v = p.to_vec();
+    let d = delta(code);
+    let ls = le32(p, start)?;
+    let li = le32(p, start + 4)?;
+    let _ = len;
+    let resize = |v: &mut Vec<u8>, at: usize, avail: usize, d: i64| -> Option<()> {
+        if d >= 0 {
+            v.splice(at..at, std::iter::repeat(0u8).take(d as usize));
+        } else {
+            let k = (-d) as usize;
+            if k > avail {
+                return None;
+            }
+            v.splice(at - k..at, []);
+        }
+        Some(())
+    };
+    match sub {
+        0 => {
+            resize(&mut v, start + 8 + ls, ls.saturating_sub(24), d)?;
+            add_le(&mut v, start, 4, d);
+        }
+        1 => {
+            resize(&mut v, start + 8 + ls + li, li, d)?;
+            add_le(&mut v, start + 4, 4, d);
+        }
+        2 => add_le(&mut v, start + 8 + 18, 2, d), // n_allele (upper 16 bits of n_allele_info)
+        3 => add_le(&mut v, start + 8 + 16, 2, d), // n_info
+        4 => add_le(&mut v, start + 8 + 23, 1, d), // n_fmt
+        5 => add_le(&mut v, start + 8 + 20, 3, d), // n_sample
+        6 => add_le(&mut v, start + 8 + 8, 4, d),  // rlen
+        7 => {
+            add_le(&mut v, start, 4, d);
+            add_le(&mut v, start + 4, 4, -d);
+        }
         _ => return None,
     }
     Some(v)
@@ -486,6 +722,40 @@ fn gen_mutations(rng: &mut Rng, thorough: bool, div: u64, w: &mut CaseWriter, ki
         push_mut(w, kind, fmt, "id", 0, 0);
     }
     let text = is_text(fmt);
+    // column / separator edits of text formats and framing-consistent record edits of BAM / BCF:
+    // exhaustive in both tiers (part of the fixed sweep only)
+    if div == 1 {
+        if text {
+            let ncol = columns(&p).len() as u64;
+            for k in 0..ncol {
+                for j in 0..COLUMN_VALUES.len() as u64 {
+                    if !thorough && j >= 4 && (k + j) % 3 != 0 {
+                        continue;
+                    }
+                    push_mut(w, kind, fmt, "col", k, j);
+                }
+            }
+            let nsep = p.iter().filter(|x| matches!(**x, b'\t' | b'\n')).count() as u64;
+            for k in 0..nsep {
+                for j in 0..N_BND {
+                    push_mut(w, kind, fmt, "bnd", k, j);
+                }
+            }
+        }
+        if kind == "mut" && (fmt == "bam" || fmt == "bcf") {
+            let (op, nrec) = if fmt == "bam" { ("bamrec", bam_records(&p).len()) } else { ("bcfrec", bcf_records(&p).len()) };
+            for r in 0..nrec as u64 {
+                for sub in 0..8u64 {
+                    for code in 0..8u64 {
+                        push_mut(w, kind, fmt, op, r * 16 + sub, code);
+                    }
+                }
+            }
+        }
+    }
+    if structured_only(fmt) {
+        return;
+    }
     // (a) single-byte substitutions
     if thorough && n <= 1600 && fmt != "vcfgz" {
         for pos in 0..n {
@@ -755,6 +1025,9 @@ fn gen_all(rng: &mut Rng, thorough: bool, div: u64, w: &mut CaseWriter) {
     for fmt in c15_decode::FORMATS {
         gen_mutations(rng, thorough, div, w, "mut", fmt, fmt);
     }
+    for fmt in ["vcf41", "vcf42", "vcf44", "vcf45", "samcrlf", "bedcrlf"] {
+        gen_mutations(rng, thorough, div, w, "mut", fmt, fmt);
+    }
     for kind in ["bai", "bamcsi", "vcftbi"] {
         gen_mutations(rng, thorough && kind == "bai", div, w, "iq", kind, &format!("iq-{kind}"));
     }
@@ -880,9 +1153,9 @@ fn run_payload(fmt: String, payload: Vec<u8>) -> Obs {
     let f2 = fmt.clone();
     let ran = watchdog(move || {
         let file = seal(&f2, payload);
-        c15_decode::decode(&f2, &file)
+        c15_decode::decode(decoder_of(&f2), &file)
     });
-    verdict(&fmt, ran, &|| format!("raw {fmt} {}", short_hex(&shown)))
+    verdict(decoder_of(&fmt), ran, &|| format!("raw {fmt} {}", short_hex(&shown)))
 }
 
 fn run_iq(kind: String, payload: Vec<u8>) -> Obs {
